@@ -455,6 +455,10 @@ def build(spec, world, mode, keep=None):
         return Mutator(world, spec['id'], spec['mode'], spec.get('on'))
     if t == 'exc':
         return EXC[spec['n']]
+    if t == 'cmpf':
+        # a comparison function of the author's (sort="key/name")
+        sign = spec.get('sign', 1)
+        return lambda a, b, sign=sign: sign * ((a > b) - (a < b))
     if t == 'tmpl':
         defaults = {k: build(v, world, mode, keep)
                     for k, v in spec.get('defaults', {}).items()}
